@@ -45,3 +45,32 @@ Theorem C06_constraints_are_conjoined : forall ss ds fuel c kws d,
   = jvalid ss ds fuel (JS kws) d && forallb (fun k => con_valid k d) (all_cons c).
 Proof. exact apply_con_valid. Qed.
 Print Assumptions C06_constraints_are_conjoined.
+
+From AV Require Import Schema.AgreeProofs.
+
+(* THE statement of C06 on the object-free fragment, by induction on the type: for every universe (enums), options, reference
+   set and definitions giving the extracted enums their schema, every type built from primitives, Any, collections, tuples,
+   mappings, Literal, Enum, Annotated constraints and unions at any nesting depth, and every datum of the common domain, the
+   schema built by the model of deserialization_schema accepts the datum exactly when the specification of deserialization
+   does.  Side conditions: Annotated does not wrap a Literal / Enum (plain), multipleOf / pattern are not stacked (chain_ok,
+   con_mergeable), mapping keys are string-typed (keys_ok). *)
+Theorem C06_schema_accepts_iff_deserializer_accepts_object_free :
+  forall u o refs ds,
+  (forall e, refs (ename_ e) = true -> def_lookup (ename_ e) ds = Some (literal_schema (get_enum u e))) ->
+  forall fuel bf t ign d,
+  obj_free t = true -> wf_con t = true -> con_mergeable u o refs bf ign t = true -> keys_ok u t = true -> in_domain d = true ->
+  jvalid false ds 0 (build u o refs bf ign t) d = accepts (spec u o fuel None t d).
+Proof. exact frag_agree. Qed.
+Print Assumptions C06_schema_accepts_iff_deserializer_accepts_object_free.
+
+(* the hypotheses are satisfiable: a nested type with constraints, a union, a mapping with constrained keys, an enum *)
+Example C06_hypotheses_satisfiable :
+  let u := mkU [] [[LInt 1; LStr "x"]] in
+  let o := mkO false false false true (fun s => s) in
+  let t := TColl KList (TUnion [TCon (mkC (Some (CI 0)) None None None None None None None None None false None None) TInt;
+                                TMap (TCon (mkC None None None None None (Some 1) None None None None false None None) TStr) (TTuple [TEnum 0; TFloat]);
+                                TNone]) in
+  let d := PList [PInt 3; PDict [("k", PList [PStr "x"; PInt 2])]; PNone] in
+  obj_free t = true /\ wf_con t = true /\ con_mergeable u o (fun _ => false) 0 false t = true /\ keys_ok u t = true /\ in_domain d = true
+  /\ jvalid false [] 0 (build u o (fun _ => false) 0 false t) d = true.
+Proof. vm_compute. repeat split. Qed.
